@@ -70,6 +70,8 @@ def script_text(df, ver, rule):
                     lines.append('    { printf "%s" "$OUT"; vpad; } > "$3"')
                 if ch in ('direct', 'directold'):
                     lines.append('    { printf "%s" "$OUT"; vpad; } > "$1"')
+                if ch == 'filedel':
+                    lines.append('    { printf "%s" "$OUT"; vpad; } > "$3"; rm -f "$3"')      # created, then deleted again
                 if ch == 'directold':
                     # older than anything redo recorded, but never the same instant twice (redo recognises a direct
                     # write by a changed mtime; identical forged mtimes are outside the model: "distinct mtimes per edit")
@@ -583,6 +585,8 @@ def replay_group(prog, alts, root, bindir, trace=None, log_mode=None, jflag=None
                 argv.append('-j%d' % step['j'])
             argv += list(step['targs'])
             extra = {'REDO_KEEP_GOING': '1'} if step['keep'] else {}
+            if jitter and step.get('j', 1) > 1 and (kill_seed + i) % 2 == 1:
+                extra['REDO_SHUFFLE'] = '1'         # --shuffle: the order of the command-line targets is a schedule too
             pre = pj.snapshot()['files'] if watch else None
             rc, so, se, started, to = pj.run(argv, timeout=cmd_timeout, extra_env=extra)
             snap = pj.snapshot()
